@@ -278,6 +278,9 @@ pub struct World {
 	pub held_blocks: Vec<Block>,
 	/// payment hashes for which a node handled PaymentSent / PaymentFailed
 	pub terminal_seen: std::collections::HashSet<(usize, [u8; 32])>,
+	/// ... and which of the two it was
+	pub sent_seen: std::collections::HashSet<(usize, [u8; 32])>,
+	pub failed_seen: std::collections::HashSet<(usize, [u8; 32])>,
 	/// heights (tip at that moment) at which the fee level of the on-chain phase rose
 	pub fee_rises: Vec<u32>,
 	/// every transaction a node relayed that the chain oracle found valid, in order: (node, txid)
@@ -304,7 +307,7 @@ impl World {
 		log.trace.store(trace && std::env::var("VERIF_TAP_TRACE").is_ok(), Ordering::Relaxed);
 		let best = BlockLocator::new(bitcoin::constants::genesis_block(bitcoin::Network::Regtest).header.block_hash(), crate::chain::BASE_HEIGHT);
 		let nodes: Vec<Node> = node_cfgs.into_iter().enumerate().map(|(i, c)| Node::new(i, c, &log, fee_now, best.clone())).collect();
-		World { rng: seed_rng, log, log_cursor: 0, nodes, chans: vec![], links: HashMap::new(), chain: Chain::new(), obs: VecDeque::new(), step: 0, claimable: vec![], payments: vec![], regs: vec![], script: vec![], trace, fee_now, next_user_id: 1, funding_txs: HashMap::new(), spendable: vec![], watch_counts: HashMap::new(), snapshot_counts: vec![], total_writes: vec![], crashes_handled: 0, writes_at_open: vec![], captured: vec![], revocations_seen: Default::default(), cp_commit_numbers: HashMap::new(), close: None, attacker_htlc_txs: vec![], onchain_done: false, miner_delay_max: 0, miner_release: HashMap::new(), miner_min_feerate: 0, fee_market_used: false, miner_exempt: Default::default(), event_log: vec![], chain_equiv: false, reorgs: false, peak_height: crate::chain::BASE_HEIGHT, justice_focus: false, late_update: false, hold_mgr_blocks: None, held_blocks: vec![], terminal_seen: Default::default(), fee_rises: vec![], relayed_valid: vec![], open_forks: false, open_paused: None, copy_reorg_floor: 0 }
+		World { rng: seed_rng, log, log_cursor: 0, nodes, chans: vec![], links: HashMap::new(), chain: Chain::new(), obs: VecDeque::new(), step: 0, claimable: vec![], payments: vec![], regs: vec![], script: vec![], trace, fee_now, next_user_id: 1, funding_txs: HashMap::new(), spendable: vec![], watch_counts: HashMap::new(), snapshot_counts: vec![], total_writes: vec![], crashes_handled: 0, writes_at_open: vec![], captured: vec![], revocations_seen: Default::default(), cp_commit_numbers: HashMap::new(), close: None, attacker_htlc_txs: vec![], onchain_done: false, miner_delay_max: 0, miner_release: HashMap::new(), miner_min_feerate: 0, fee_market_used: false, miner_exempt: Default::default(), event_log: vec![], chain_equiv: false, reorgs: false, peak_height: crate::chain::BASE_HEIGHT, justice_focus: false, late_update: false, hold_mgr_blocks: None, held_blocks: vec![], terminal_seen: Default::default(), sent_seen: Default::default(), failed_seen: Default::default(), fee_rises: vec![], relayed_valid: vec![], open_forks: false, open_paused: None, copy_reorg_floor: 0 }
 	}
 	/// Whether the victim (the other party) has processed the revocation of this captured commitment.
 	pub fn is_revoked(&self, c: &crate::onchain::Captured) -> bool {
@@ -612,9 +615,11 @@ impl World {
 		match &e {
 			Event::PaymentSent { payment_hash, .. } => {
 				self.terminal_seen.insert((n, payment_hash.0));
+				self.sent_seen.insert((n, payment_hash.0));
 			},
 			Event::PaymentFailed { payment_hash: Some(ph), .. } => {
 				self.terminal_seen.insert((n, ph.0));
+				self.failed_seen.insert((n, ph.0));
 			},
 			_ => {},
 		}
